@@ -125,4 +125,59 @@ def specSubs : List Sub → Int → Option Entry → Option Entry
   | sb :: rest, n, acc => specSubs rest n (specEntries (sb.start : Int) sb.entries n acc)
 
 
+/-- A classic file body as the scan sees it: plain lines and indirect objects.  An object is its
+header line `hl` (`n g obj` + EOL) followed by `body` (everything up to and including `endobj`). -/
+inductive Item
+  | line (l : Bytes)
+  | obj (num gen : Nat) (hl body : Bytes)
+
+def Item.bytes : Item → Bytes
+  | .line l => l
+  | .obj _ _ hl body => hl ++ body
+
+def itemsBytes : List Item → Bytes
+  | [] => []
+  | i :: r => i.bytes ++ itemsBytes r
+
+/-- The true offsets: every object registered at the offset where its header starts. -/
+def scanSpec : Nat → List Item → List (Int × Entry) → List (Int × Entry)
+  | _, [], offs => offs
+  | pos, .line l :: r, offs => scanSpec (pos + l.length) r offs
+  | pos, .obj n g hl body :: r, offs =>
+    scanSpec (pos + (hl ++ body).length) r (insertOff offs (n : Int) ⟨none, pos, g⟩)
+
+/-- Well-formedness of the body relative to what follows it (`after`): every plain line is a
+line that is neither a cue nor the trailer keyword; every object header stands at a line start,
+is a line, matches the cue with its own numbers, and `ends` knows where the object stops
+(`nextobject()`); no object is an object stream (classic files). -/
+def ItemsOK (ends : List (Nat × Nat × Val)) : Nat → List Item → Bytes → Prop
+  | _, [], _ => True
+  | pos, .line l :: r, after =>
+    takeLine (l ++ (itemsBytes r ++ after)) = some (l, l.length) ∧ startsWith l kwTrailer = false ∧
+    matchCue l = none ∧ ItemsOK ends (pos + l.length) r after
+  | pos, .obj n g hl body :: r, after =>
+    takeLine (hl ++ (body ++ (itemsBytes r ++ after))) = some (hl, hl.length) ∧ startsWith hl kwTrailer = false ∧
+    matchCue hl = some (n, g) ∧
+    (∃ v, lookupNat ends pos = some (pos + (hl ++ body).length, v) ∧ ∀ id k t, v ≠ .objstm id k t) ∧
+    ItemsOK ends (pos + (hl ++ body).length) r after
+
+
+def Val.isObjstm : Val → Bool
+  | .objstm _ _ _ => true
+  | _ => false
+
+/-- Executable form of `ItemsOK` (evaluated by the harness on every damaged-file case). -/
+def itemsOKb (ends : List (Nat × Nat × Val)) : Nat → List Item → Bytes → Bool
+  | _, [], _ => true
+  | pos, .line l :: r, after =>
+    takeLine (l ++ (itemsBytes r ++ after)) == some (l, l.length) && !startsWith l kwTrailer &&
+    matchCue l == none && itemsOKb ends (pos + l.length) r after
+  | pos, .obj n g hl body :: r, after =>
+    takeLine (hl ++ (body ++ (itemsBytes r ++ after))) == some (hl, hl.length) && !startsWith hl kwTrailer &&
+    matchCue hl == some (n, g) &&
+    (match lookupNat ends pos with
+     | some (e, v) => e == pos + (hl ++ body).length && !v.isObjstm
+     | none => false) &&
+    itemsOKb ends (pos + (hl ++ body).length) r after
+
 end PdfVerif.Xref
